@@ -3787,6 +3787,9 @@ static void generate_toplevel_globals(StringBuilder *sb, ASTNode *program, Envir
             } else {
                 sb_append(sb, "void*");
             }
+        } else if (item->as.let.var_type == TYPE_STRUCT && item->as.let.type_name) {
+            /* type_to_c(TYPE_STRUCT) is the bare keyword `struct`: name the struct type */
+            sb_append(sb, get_prefixed_type_name(item->as.let.type_name));
         } else {
             sb_append(sb, type_to_c(item->as.let.var_type));
         }
